@@ -197,6 +197,97 @@ fn run_err_expr_inner(case: &Value) -> Value {
     }
 }
 
-pub fn run_acc_ops(_case: &Value) -> Value {
-    json!({"error": "todo"})
+pub fn run_acc_ops(case: &Value) -> Value {
+    use darling::error::Accumulator;
+    let spans = token_spans(case["src"].as_str().unwrap_or(""));
+    let ev = |b: &Value| eval(b, &spans).expect("accumulator cases use total builder expressions");
+    let mut state: Option<Accumulator> = None;
+    let mut trace: Vec<Value> = vec![];
+    for op in case["ops"].as_array().unwrap() {
+        let mut acc = state.take().unwrap_or_else(Error::accumulator);
+        let out = match op["t"].as_str().unwrap() {
+            "push" => {
+                let e = ev(&op["b"]);
+                match catch(move || { acc.push(e); acc }) {
+                    Ok(a) => { state = Some(a); json!({"t": "unit"}) }
+                    Err(m) => json!({"t": "panicked", "msg": m}),
+                }
+            }
+            "handle_ok" => {
+                let v = op["v"].as_u64().unwrap();
+                let r = acc.handle(Ok(v));
+                state = Some(acc);
+                json!({"t": "value", "v": r})
+            }
+            "handle_err" => {
+                let e = ev(&op["b"]);
+                let r: Option<u64> = acc.handle(Err(e));
+                state = Some(acc);
+                json!({"t": "value", "v": r})
+            }
+            "handle_in_ok" => {
+                let v = op["v"].as_u64().unwrap();
+                let r = acc.handle_in(|| Ok(v));
+                state = Some(acc);
+                json!({"t": "value", "v": r})
+            }
+            "handle_in_err" => {
+                let e = ev(&op["b"]);
+                let r: Option<u64> = acc.handle_in(|| Err(e));
+                state = Some(acc);
+                json!({"t": "value", "v": r})
+            }
+            "extend" => {
+                let es: Vec<Error> = op["bs"].as_array().unwrap().iter().map(ev).collect();
+                acc.extend(es);
+                state = Some(acc);
+                json!({"t": "unit"})
+            }
+            "checkpoint" => match catch(move || acc.checkpoint()) {
+                Ok(Ok(a)) => { state = Some(a); json!({"t": "fresh"}) }
+                Ok(Err(e)) => json!({"t": "failed", "e": observe(&e)}),
+                Err(m) => json!({"t": "panicked", "msg": m}),
+            },
+            "finish" => match catch(move || acc.finish()) {
+                Ok(Ok(())) => json!({"t": "finished", "v": null}),
+                Ok(Err(e)) => json!({"t": "failed", "e": observe(&e)}),
+                Err(m) => json!({"t": "panicked", "msg": m}),
+            },
+            "finish_with" => {
+                let v = op["v"].as_u64().unwrap();
+                match catch(move || acc.finish_with(v)) {
+                    Ok(Ok(v)) => json!({"t": "finished", "v": v}),
+                    Ok(Err(e)) => json!({"t": "failed", "e": observe(&e)}),
+                    Err(m) => json!({"t": "panicked", "msg": m}),
+                }
+            }
+            "into_inner" => match catch(move || acc.into_inner()) {
+                Ok(v) => json!({"t": "vec", "es": v.iter().map(observe).collect::<Vec<_>>()}),
+                Err(m) => json!({"t": "panicked", "msg": m}),
+            },
+            "drop" => match catch(move || drop(acc)) {
+                Ok(()) => json!({"t": "quiet"}),
+                Err(m) => json!({"t": "panicked", "msg": m}),
+            },
+            "drop_unwinding" => {
+                // the accumulator is dropped while this thread unwinds from another panic;
+                // a panic in that drop would abort the process (observed by the driver as a crash)
+                let r = catch(move || {
+                    let _held = acc;
+                    panic!("outer unwinding");
+                });
+                match r {
+                    Err(m) if m == "outer unwinding" => json!({"t": "quiet"}),
+                    Err(m) => json!({"t": "panicked", "msg": m}),
+                    Ok(()) => json!({"t": "error"}),
+                }
+            }
+            other => panic!("harness: unknown acc op {}", other),
+        };
+        trace.push(out);
+    }
+    if let Some(acc) = state.take() {
+        let _ = acc.into_inner();
+    }
+    json!({"trace": trace, "sim": sim_table(case)})
 }
